@@ -84,6 +84,11 @@ fn world(v: u64, ca3_mft_missing: bool) -> World {
 struct ChildResult { code: Option<i32>, signal: Option<i32> }
 
 fn run_child(bed_root: &Path, cache: &Path, tals: &Path, cmd: &[&str], env: &[(&str, String)]) -> ChildResult {
+    run_child_wrapped(bed_root, cache, tals, cmd, env, &[])
+}
+
+/// As `run_child`, with the child started through `wrapper` (e.g. strace ... --).
+fn run_child_wrapped(bed_root: &Path, cache: &Path, tals: &Path, cmd: &[&str], env: &[(&str, String)], wrapper: &[String]) -> ChildResult {
     use std::os::unix::process::ExitStatusExt;
     let mut argv: Vec<String> = vec![
         "routinator".into(), "--repository-dir".into(), cache.to_string_lossy().into(),
@@ -94,7 +99,11 @@ fn run_child(bed_root: &Path, cache: &Path, tals: &Path, cmd: &[&str], env: &[(&
     let argv_file = cache.with_extension(format!("argv{}.json", std::process::id()));
     std::fs::write(&argv_file, serde_json::to_string(&argv).unwrap()).unwrap();
     let exe = std::env::current_exe().unwrap();
-    let mut c = Command::new(exe);
+    let mut c = if wrapper.is_empty() { Command::new(&exe) } else {
+        let mut c = Command::new(&wrapper[0]);
+        c.args(&wrapper[1..]).arg(&exe);
+        c
+    };
     c.arg("storecrash").arg("--opt").arg(format!("child={}", argv_file.display()))
         .current_dir(bed_root).stdout(Stdio::null()).stderr(Stdio::null());
     for (k, v) in env { c.env(k, v); }
@@ -191,6 +200,88 @@ pub fn main(args: &Args) -> i32 {
     rep.write(args)
 }
 
+/// Classifies the crashed cache, then runs the recovery commands on copies of it.
+#[allow(clippy::too_many_arguments)]
+fn judge(local: &mut Report, root: &Path, tals: &Path, crashed: &Path, ctx: &Value, name: &str,
+         reference: &BTreeSet<String>, new_version: u64, old_version: u64,
+         allowed_point: &BTreeSet<String>, allowed_status: &BTreeSet<String>, tag: &str, had_stored: bool) {
+    let crashed = crashed.to_path_buf();
+    // classify what is on disk
+    let mut files = Vec::new();
+    find_files(&crashed.join("stored").join("rsync"), ".mft", &mut files);
+    let mut classes = BTreeMap::new();
+    for f in &files {
+        let c = classify_point(f);
+        classes.insert(f.file_name().unwrap().to_string_lossy().into_owned(), c.clone());
+        if had_stored && c != "full" {
+            local.violation("C23", &format!("stored-point-lost/{name}"),
+                format!("after a kill at '{name}' the stored point {} that held a complete version before the run is now '{c}': neither its previous nor its new version", f.display()),
+                ctx.clone(), json!({"class": c}));
+        }
+        if !allowed_point.contains(&c) {
+            local.violation("C23", &format!("corrupt-stored-point/{name}"),
+                format!("after a kill at '{name}' the stored point {} is neither absent, empty, a bare header nor a complete version ({c})", f.display()),
+                ctx.clone(), json!({"class": c}));
+        }
+    }
+    let status_class = classify_plain(&crashed.join("stored").join("status.bin"));
+    if !allowed_status.contains(&status_class) {
+        local.divergence("C23", format!("status file class {status_class} not in the model"));
+    }
+    let observed_state = json!({"points": classes, "status": status_class});
+    // recovery commands, each on its own copy
+    let recoveries: [(&str, Vec<&str>); 5] = [
+        ("vrps-noupdate", vec!["vrps", "-n", "-o", "rec.csv"]),
+        ("vrps-update-after", vec!["vrps", "--update-after", "3600", "-o", "rec.csv"]),
+        ("vrps", vec!["vrps", "-o", "rec.csv"]),
+        ("validate", vec!["validate", "--asn", "64502", "--prefix", "0.0.0.0/3"]),
+        ("update", vec!["update"]),
+    ];
+    for (rname, rcmd) in recoveries.iter() {
+        let rc = root.join("caches").join(format!("{tag}-{rname}"));
+        copy_dir(&crashed, &rc);
+        let out = format!("rec-{tag}-{rname}.csv");
+        let mut cmd: Vec<&str> = rcmd.clone();
+        if let Some(pos) = cmd.iter().position(|x| *x == "rec.csv") { cmd[pos] = &out; }
+        let res = run_child(root, &rc, tals, &cmd, &[]);
+        local.eval("C23");
+        let observed = json!({"command": rname, "exit_code": res.code, "signal": res.signal, "state_after_kill": observed_state});
+        if res.code != Some(0) {
+            local.violation("C23", &format!("command-fails-after-crash/{rname}/{name}"),
+                format!("after a kill at '{name}' the command '{}' exits with {:?}", rcmd.join(" "), res.code),
+                ctx.clone(), observed.clone());
+        }
+        else if rname.starts_with("vrps") {
+            match read_vrps(&root.join(&out)) {
+                None => local.violation("C23", &format!("no-output-after-crash/{rname}"), "vrps produced no readable output", ctx.clone(), observed.clone()),
+                Some(got) => {
+                    if *rname == "vrps" && got != *reference {
+                        local.violation("C23", &format!("different-data-after-crash/{name}"),
+                            format!("the run after the crash yields {:?}, an uninterrupted run {:?}", got, reference), ctx.clone(), observed.clone());
+                    }
+                    if *rname == "vrps-noupdate" {
+                        // every CA contributes a complete old or new version (or nothing)
+                        for ca in [2u64, 3] {
+                            let mine: BTreeSet<String> = got.iter().filter(|l| l.ends_with(&format!("AS{}", 64500 + ca))).cloned().collect();
+                            // (nothing at all is also what a CA contributes whose point file is a bare header)
+                    let ok = (mine.is_empty() && !had_stored) || mine == version_set(ca, new_version)
+                                || (old_version != 0 && mine == version_set(ca, old_version));
+                            if !ok {
+                                local.violation("C23", &format!("partial-point-after-crash/{name}"),
+                                    format!("after the crash CA ca{ca} contributes {:?}: neither its previous nor its new complete version", mine),
+                                    ctx.clone(), observed.clone());
+                            }
+                        }
+                    }
+                }
+            }
+            let _ = std::fs::remove_file(root.join(&out));
+        }
+        let _ = std::fs::remove_dir_all(&rc);
+    }
+    local.sample("C23", json!({"kill_point": name, "state_after_kill": observed_state}));
+}
+
 fn scenario(rep: &Arc<Mutex<Report>>, factory: &Arc<Factory>, sc: &str,
             allowed_point: &BTreeSet<String>, allowed_status: &BTreeSet<String>, args: &Args) {
     let bed = TestBed::new();
@@ -218,6 +309,7 @@ fn scenario(rep: &Arc<Mutex<Report>>, factory: &Arc<Factory>, sc: &str,
         x => panic!("scenario {x}"),
     };
     let ca3_missing = sc == "attempt";
+    let had_stored = matches!(sc, "update" | "server_first");
     let old_version = if new_version == 2 { 1 } else { 0 };
     // 2. uninterrupted reference run, counting the kill points
     let refc = root.join("caches").join("ref");
@@ -267,79 +359,93 @@ fn scenario(rep: &Arc<Mutex<Report>>, factory: &Arc<Factory>, sc: &str,
                     rep.lock().unwrap().absorb(local);
                     continue
                 }
-                // classify what is on disk
-                let mut files = Vec::new();
-                find_files(&crashed.join("stored").join("rsync"), ".mft", &mut files);
-                let mut classes = BTreeMap::new();
-                for f in &files {
-                    let c = classify_point(f);
-                    classes.insert(f.file_name().unwrap().to_string_lossy().into_owned(), c.clone());
-                    if !allowed_point.contains(&c) {
-                        local.violation("C23", &format!("corrupt-stored-point/{name}"),
-                            format!("after a kill at '{name}' the stored point {} is neither absent, empty, a bare header nor a complete version ({c})", f.display()),
-                            ctx.clone(), json!({"class": c}));
-                    }
-                }
-                let status_class = classify_plain(&crashed.join("stored").join("status.bin"));
-                if !allowed_status.contains(&status_class) {
-                    local.divergence("C23", format!("status file class {status_class} not in the model"));
-                }
-                let observed_state = json!({"points": classes, "status": status_class});
-                // recovery commands, each on its own copy
-                let recoveries: [(&str, Vec<&str>); 5] = [
-                    ("vrps-noupdate", vec!["vrps", "-n", "-o", "rec.csv"]),
-                    ("vrps-update-after", vec!["vrps", "--update-after", "3600", "-o", "rec.csv"]),
-                    ("vrps", vec!["vrps", "-o", "rec.csv"]),
-                    ("validate", vec!["validate", "--asn", "64502", "--prefix", "0.0.0.0/3"]),
-                    ("update", vec!["update"]),
-                ];
-                for (rname, rcmd) in recoveries.iter() {
-                    let rc = root.join("caches").join(format!("k{k}-t{t}-{rname}"));
-                    copy_dir(&crashed, &rc);
-                    let out = format!("rec-k{k}-{rname}.csv");
-                    let mut cmd: Vec<&str> = rcmd.clone();
-                    if let Some(pos) = cmd.iter().position(|x| *x == "rec.csv") { cmd[pos] = &out; }
-                    let res = run_child(root, &rc, tals, &cmd, &[]);
-                    local.eval("C23");
-                    let observed = json!({"command": rname, "exit_code": res.code, "signal": res.signal, "state_after_kill": observed_state});
-                    if res.code != Some(0) {
-                        local.violation("C23", &format!("command-fails-after-crash/{rname}/{name}"),
-                            format!("after a kill at '{name}' the command '{}' exits with {:?}", rcmd.join(" "), res.code),
-                            ctx.clone(), observed.clone());
-                    }
-                    else if rname.starts_with("vrps") {
-                        match read_vrps(&root.join(&out)) {
-                            None => local.violation("C23", &format!("no-output-after-crash/{rname}"), "vrps produced no readable output", ctx.clone(), observed.clone()),
-                            Some(got) => {
-                                if *rname == "vrps" && got != *reference {
-                                    local.violation("C23", &format!("different-data-after-crash/{name}"),
-                                        format!("the run after the crash yields {:?}, an uninterrupted run {:?}", got, reference), ctx.clone(), observed.clone());
-                                }
-                                if *rname == "vrps-noupdate" {
-                                    // every CA contributes a complete old or new version (or nothing)
-                                    for ca in [2u64, 3] {
-                                        let mine: BTreeSet<String> = got.iter().filter(|l| l.ends_with(&format!("AS{}", 64500 + ca))).cloned().collect();
-                                        let ok = mine.is_empty() || mine == version_set(ca, new_version)
-                                            || (old_version != 0 && mine == version_set(ca, old_version));
-                                        if !ok {
-                                            local.violation("C23", &format!("partial-point-after-crash/{name}"),
-                                                format!("after the crash CA ca{ca} contributes {:?}: neither its previous nor its new complete version", mine),
-                                                ctx.clone(), observed.clone());
-                                        }
-                                    }
-                                }
-                            }
-                        }
-                        let _ = std::fs::remove_file(root.join(&out));
-                    }
-                    let _ = std::fs::remove_dir_all(&rc);
-                }
+                judge(&mut local, root, tals, &crashed, &ctx, &name, reference, new_version, old_version,
+                      allowed_point, allowed_status, &format!("k{k}-t{t}"), had_stored);
                 let _ = std::fs::remove_dir_all(&crashed);
                 let _ = std::fs::remove_file(root.join(&out_killed));
-                local.sample("C23", json!({"scenario": sc, "kill_point": name, "state_after_kill": observed_state}));
                 rep.lock().unwrap().absorb(local);
             });
         }
     });
+    // 4. the same with kills at system-call granularity (strace fault injection): independent of where
+    //    the source-level kill points were placed
+    if sc == "update" || args.thorough() {
+        syscall_pass(rep, sc, &root, &base, &tals, &killed_cmd, &reference, new_version, old_version,
+                     allowed_point, allowed_status, had_stored, args);
+    }
     let _ = Value::Null;
+}
+
+const SYSCALLS: &str = "rename,renameat,renameat2,unlink,unlinkat,rmdir,ftruncate,mkdir,mkdirat";
+
+#[allow(clippy::too_many_arguments)]
+fn syscall_pass(rep: &Arc<Mutex<Report>>, sc: &str, root: &Path, base: &Path, tals: &Path, killed_cmd: &[&str],
+                reference: &BTreeSet<String>, new_version: u64, old_version: u64,
+                allowed_point: &BTreeSet<String>, allowed_status: &BTreeSet<String>, had_stored: bool, args: &Args) {
+    let set = if args.thorough() { format!("{SYSCALLS},openat,creat,truncate") } else { SYSCALLS.to_string() };
+    // counting run
+    let countc = root.join("caches").join("sys-count");
+    copy_dir(base, &countc);
+    let log = root.join("strace-count.log");
+    let wrapper: Vec<String> = vec!["strace".into(), "-f".into(), "-qq".into(), "-e".into(), format!("trace={set}"),
+                                    "-o".into(), log.to_string_lossy().into(), "--".into()];
+    let r = run_child_wrapped(root, &countc, tals, killed_cmd, &[], &wrapper);
+    let text = std::fs::read_to_string(&log).unwrap_or_default();
+    let mut per_pid: BTreeMap<String, usize> = BTreeMap::new();
+    for l in text.lines() {
+        if let Some((pid, rest)) = l.split_once(' ') {
+            if rest.contains('(') && !rest.trim_start().starts_with("+++") && !rest.trim_start().starts_with("---") {
+                *per_pid.entry(pid.to_string()).or_insert(0) += 1;
+            }
+        }
+    }
+    let kmax = per_pid.values().copied().max().unwrap_or(0);
+    if r.code != Some(0) || kmax == 0 {
+        rep.lock().unwrap().divergence("C23", format!("{sc}: strace counting run unusable (exit {:?}, {} calls): system-call pass skipped", r.code, kmax));
+        rep.lock().unwrap().note("C23", "syscall_pass", json!("skipped"));
+        return
+    }
+    rep.lock().unwrap().note("C23", &format!("syscall_kill_points_{sc}"), json!(kmax));
+    let work = Arc::new(Mutex::new((1..=kmax).collect::<Vec<_>>().into_iter()));
+    let nthreads = args.opt_usize("jobs", 10);
+    std::thread::scope(|scope| {
+        for t in 0..nthreads {
+            let work = work.clone();
+            let rep = rep.clone();
+            let set = set.clone();
+            scope.spawn(move || loop {
+                let k = match work.lock().unwrap().next() { Some(k) => k, None => break };
+                let mut local = Report::new("storecrash");
+                let crashed = root.join("caches").join(format!("s{k}-t{t}"));
+                copy_dir(base, &crashed);
+                let out_killed = format!("out-s{k}.csv");
+                let mut cmd: Vec<&str> = killed_cmd.to_vec();
+                let n = cmd.len();
+                cmd[n - 1] = &out_killed;
+                let slog = root.join(format!("strace-s{k}-t{t}.log"));
+                let wrapper: Vec<String> = vec!["strace".into(), "-f".into(), "-qq".into(), "-e".into(), format!("trace={set}"),
+                    "-e".into(), format!("inject={set}:signal=SIGKILL:when={k}"), "-o".into(), slog.to_string_lossy().into(), "--".into()];
+                let r = run_child_wrapped(root, &crashed, tals, &cmd, &[], &wrapper);
+                let killed = r.signal == Some(9) || r.code == Some(137);
+                if killed {
+                    // the system call the kill hit: last call line of the killed thread
+                    let st = std::fs::read_to_string(&slog).unwrap_or_default();
+                    let name = st.lines().rev().find(|l| l.contains('(')).map(|l| {
+                        let call = l.split_once(' ').map(|x| x.1).unwrap_or(l);
+                        call.split('(').next().unwrap_or("?").trim().to_string()
+                    }).unwrap_or_else(|| "?".into());
+                    let name = format!("syscall-{name}");
+                    let ctx = json!({"scenario": sc, "kill": "strace fault injection", "syscall_set": set, "when": k, "of": kmax, "syscall": name});
+                    local.eval("C23"); local.trace("C23");
+                    local.nontrivial("C23", format!("{sc}/sys/{k}"));
+                    judge(&mut local, root, tals, &crashed, &ctx, &name, reference, new_version, old_version,
+                          allowed_point, allowed_status, &format!("s{k}-t{t}"), had_stored);
+                }
+                let _ = std::fs::remove_dir_all(&crashed);
+                let _ = std::fs::remove_file(root.join(&out_killed));
+                let _ = std::fs::remove_file(&slog);
+                rep.lock().unwrap().absorb(local);
+            });
+        }
+    });
 }
